@@ -775,6 +775,15 @@ func (r *aRun) oracleC05(v *aView) {
 			sc.ackSteps = append(sc.ackSteps, m.AckStep)
 		}
 	}
+	// the two rules below read chunk ids as creation order. That holds while the wall clock does not step back across id
+	// generators (a restart creates a new one starting from the clock): in runs with an injected clock step the order of
+	// delivery is judged by the record-level rule above only
+	for _, ev := range r.s.Events {
+		if ev.Kind == "clock_back" {
+			out.probe("id_based_order_rules_skipped_after_clock_step", 1)
+			return
+		}
+	}
 	arrived := map[string]map[string]int{} // pipeline -> chunk id -> step of first arrival
 	for _, m := range r.srv.msgs {
 		out.Obligations++
